@@ -792,6 +792,10 @@ def ceval(expr: ast.AST, env: dict):
         for k, f in table.items():
             if isinstance(expr.op, k):
                 return f(a, b)
+        if isinstance(expr.op, ast.Pow) and isinstance(a, (int, float)) and isinstance(b, int) and not isinstance(a, bool) and 0 <= b <= 64 and abs(a) <= 1024:
+            return a**b  # small integer powers (2 ** ORDER)
+        if isinstance(expr.op, ast.Div) and isinstance(a, (int, float)) and isinstance(b, (int, float)) and b != 0:
+            return a / b
         raise Unknown("binop")
     if isinstance(expr, ast.Compare):
         left = ceval(expr.left, env)
